@@ -64,8 +64,26 @@ let mz_zlist zs =
 let mz_parse_zlist v =
   if v = "-" || v = "" then [] else List.map (fun z -> mz_nat (int_of_string z)) (String.split_on_char ',' v)
 
+(* command-execution family of event::ExecuteCommand: ct= (command_type) src= ("source" present) dl= (deadline passed) cx= (command exists) *)
+let mz_qmode a = str a "m" "" = "event::ExecuteCommand" && str a "ct" "" <> ""
+let mz_decode_q a =
+  { mz_qtype = (match str a "ct" "check" with "check" -> MzCCheck | "event" -> MzCEvent | "notif" -> MzCNotification | _ -> MzCOther);
+    mz_qsource = (num a "src" 0 <> 0); mz_qexpired = (num a "dl" 0 <> 0); mz_qexists = (num a "cx" 1 <> 0) }
+let mz_ex_letter q = match q.mz_qtype with MzCCheck -> "c" | MzCEvent -> "e" | MzCNotification -> "n" | MzCOther -> "?"
+
+(* multi-object family: ckz= / hz= = zone of the checkable / of the host of the object changed (default: its own zone, oz=) *)
+let mz_decode_om a m =
+  let rel k = match str a k "" with "" -> m.mz_objzone | v -> mz_opt_zone v in
+  { mz_om = m; mz_ockzone = rel "ckz"; mz_ohostzone = rel "hz" }
+
 let op_mz_msg a =
   let (t, c, s, m, ts, meth) = mz_decode a in
+  if mz_qmode a then begin
+    let q = mz_decode_q a in
+    let o = mz_exq_run t c s m ts q in
+    emit (Printf.sprintf "msg rlp=%d app=%d ex=%s rp=%d" (b2i o.mz_qrlp) (b2i o.mz_qexec)
+            (if o.mz_qexec then mz_ex_letter q else "-") (mz_int (mz_qreply_code o.mz_qrep)))
+  end else
   if mz_xmode a then begin
     let (x, e) = mz_decode_x a t in
     let o = mz_exec_run t c s m x e ts in
@@ -74,10 +92,15 @@ let op_mz_msg a =
   let zp = match str a "zp" "" with
     | "" -> (match mz_opt_zone (str a "oz" "-") with None -> MzZEmpty | Some z -> MzZKnown z)   (* the harness sends the object's own zone *)
     | "e" -> MzZEmpty | "x" -> MzZUnknown | z -> MzZKnown (mz_nat (int_of_string z)) in
-  let o = mz_run_zp_i t c s m ts (mz_index meth) zp in
+  let om = mz_decode_om a m in
+  let o = mz_run_objk_i t c s om ts (mz_index meth) zp (str a "ro" "c" <> "x") in
   let cz = if str a "cz" "" = "" then "" else
     (match mz_created_zone o (mz_opt_zone (str a "cz" "-")) zp with None -> " cz=-" | Some z -> Printf.sprintf " cz=%d" (mz_int z)) in
-  emit (Printf.sprintf "msg rlp=%d app=%d%s" (b2i o.mz_rlp) (b2i o.mz_applied) cz)
+  let chz = if num a "chz" 0 = 0 then "" else
+    (match mz_changed_zones o om with
+     | [] -> " chz=."
+     | l -> " chz=" ^ String.concat "," (List.sort_uniq compare (List.map (function None -> "n" | Some z -> string_of_int (mz_int z)) l))) in
+  emit (Printf.sprintf "msg rlp=%d app=%d%s%s" (b2i o.mz_rlp) (b2i o.mz_applied) chz cz)
 
 let op_mz_zoneless _ = emit "zoneless rejected=1"
 
@@ -109,6 +132,11 @@ let oracle_c13_case script trace =
          let geti k = match tok_val toks k with Some v -> int_of_string v | None -> -1 in
          let (t, c, s, m, _, meth) = mz_decode a in
          let code =
+           if mz_qmode a then begin
+             let gets k = match tok_val toks k with Some v -> v | None -> "-" in
+             let o = { mz_qrlp = (geti "rlp" = 1); mz_qexec = (gets "ex" <> "-" || geti "app" = 1); mz_qrep = MzQNoReply } in
+             mz_int (mz_qoracle t c s m o)
+           end else
            if mz_xmode a then begin
              let (x, _) = mz_decode_x a t in
              let gets k = match tok_val toks k with Some v -> v | None -> "-" in
@@ -117,7 +145,14 @@ let oracle_c13_case script trace =
              mz_int (mz_xoracle t c s m x o)
            end else
              let o = { mz_dropped = false; mz_rlp = (geti "rlp" = 1); mz_applied = (geti "app" = 1) } in
-             mz_int (mz_oracle_i t c s m (mz_index meth) o) in
+             let c1 = mz_int (mz_oracle_i t c s m (mz_index meth) o) in
+             if c1 <> 0 || num a "chz" 0 = 0 then c1 else begin
+               (* every object that changed must be one the sender is entitled to change *)
+               let zs = match tok_val toks "chz" with
+                 | None | Some "." -> []
+                 | Some v -> List.map (fun z -> if z = "n" then None else Some (mz_nat (try int_of_string z with _ -> 0))) (String.split_on_char ',' v) in
+               mz_int (mz_oracle_changed_i t c s m (mz_index meth) zs)
+             end in
          if code <> 0 then
            fail (Printf.sprintf "msg=%d code=%d %s m=%s ep=%s" !idx code
                    (match code with 1 -> "unclassified-method-applied" | 2 -> "applied-not-entitled" | 3 -> "inert-method-had-effect"
@@ -127,6 +162,8 @@ let oracle_c13_case script trace =
                                   | 8 -> "command-handed-to-zone-off-path"
                                   | 9 -> "reply-handed-to-foreign-zone"
                                   | 10 -> "local-execution-relayed"
+                                  | 11 -> "command-executed-although-accept_commands-is-off"
+                                  | 13 -> "object-changed-sender-not-entitled"
                                   | _ -> "inconsistent")
                    meth (match mz_ep s with None -> "none" | Some _ -> "some"))
          end)
